@@ -1,6 +1,6 @@
 PID = "C17"
 WORKER = "w_c17"
-HEADER = "From Coq Require Import List ZArith QArith Qcanon.\nFrom Dimod Require Import Base.Util Model.Poly Model.Comb Gen.Gen_Gates Gen.Gen_Combinations Gen.Gen_Graph Model.Gates Model.Knap Model.QKnap Gen.Gen_Knap Model.MultCircuit Model.Qap Gen.Gen_Qap Model.QapGen Model.Magic Gen.Gen_Magic Model.MagicGen Model.Sat Gen.Gen_Sat Model.ChkC17.\nImport ListNotations."
+HEADER = "From Coq Require Import List ZArith QArith Qcanon.\nFrom Dimod Require Import Base.Util Model.Poly Model.Comb Gen.Gen_Gates Gen.Gen_Combinations Gen.Gen_Graph Model.Gates Model.Knap Model.QKnap Gen.Gen_Knap Model.MultCircuit Gen.Gen_MultWiring Model.MultWiring Model.Qap Gen.Gen_Qap Model.QapGen Model.Magic Gen.Gen_Magic Model.MagicGen Model.Sat Gen.Gen_Sat Model.ChkC17.\nImport ListNotations."
 CHECK_FN = "check"
 N_QUICK = 1200      # wall time: see the stage breakdown in the round-5 report; the worker + Coq evaluation share is ~80 s at 1600
 N_THOROUGH = 30000
@@ -28,6 +28,9 @@ TRUSTED = ["translators/gates_tables.py (fail-closed ast translator: gates.py ->
            "translators/qap_construction.py (fail-closed ast translator: quadratic_assignment -> Gen/Gen_Qap.v: variable creation order, the guard and bias expression of the product(range(n), repeat=4) loop, "
            "the list of set_quadratic calls in loop order, the add_discrete rows and the add_constraint columns; Model/QapGen.v replays the calls with Model/Poly.v's set_quadratic and is "
            "compared coefficient-wise with the implementation in every quadratic_assignment case; what stays trusted: that set_quadratic overwrites (property C01's model) and that add_discrete(cells) means sum(cells) == 1)",
+           "translators/mult_wiring.py (fail-closed ast translator: multiplication_circuit -> Gen/Gen_MultWiring.v: the naming functions AND / SUM / CARRY with the product-bit relabelling, the list `inputs` of gate(i, j) "
+           "(initial value and what the nested ifs append), the and_gate arguments, the outputs, the len(inputs) tests placing a half / full adder, the visiting order; Model/MultWiring.v assembles the gate instances and is "
+           "compared coefficient-wise with the implementation in every wiring case; trusted: star-args application (half adder = 2 inputs, full adder = 3), quicksum = sum of the gate models, label text <-> wire constructor)",
            "translators/magic_construction.py (fail-closed ast translator: magic_square -> Gen/Gen_Magic.v: the row / column / diagonal / antidiagonal lines with their exponent in source order, the condition, "
            "the degree-2 terms, sense and right-hand side of the uniqueness constraint; Model/MagicGen.v is compared with the implementation in every magic_square case; trusted: label var_x_y <-> index x*n+y, "
            "quicksum(v ** e) - sum == 0 read as linear terms (e = 1) or squares (e = 2))",
@@ -36,7 +39,7 @@ TRUSTED = ["translators/gates_tables.py (fail-closed ast translator: gates.py ->
            "cases without subgraph=); the frustrated_loop / doped / gnm / gnp parts depend on unobservable draws and their per-case tie remains the worker's monitor (w_c17_py.py)",
            "translators/combinations_rule.py (fail-closed ast translator: the coefficient rule of combinations -> Gen/Gen_Combinations.v)",
            "model: coq/theories/Model/Gates.v, Comb.v (combinations_energy), Knap.v (knapsack / multi-knapsack / bin packing), "
-           "MultCircuit.v (wiring of multiplication_circuit), ChkC17.v (hand written, tied by this correspondence)",
+           "MultCircuit.v (wiring of multiplication_circuit; proved equal to the wiring generated from the source), ChkC17.v (hand written, tied by this correspondence)",
            "multiplication circuit: the wiring model is compared coefficient-wise with the BQM for sizes up to 6x6 (in Coq); for the "
            "energy table of sizes <= 3x3 the minimisation over auxiliaries is done in the worker (numpy enumeration through "
            "BQM.energies) and the decision `min = 0 <-> p = a*b, else >= 1` on the resulting table is made in Coq",
@@ -59,8 +62,10 @@ PARTIAL = ["quadratic_assignment: the documented cost holds for ANY flow matrix 
            "magic_square: constraints tied coefficient-wise and on integer assignments; the construction is GENERATED from the source (translators/magic_construction.py -> Gen/Gen_Magic.v, Model/MagicGen.v) "
            "and proved equal, as a list of constraints, to the mirror Model/Magic.v for every n and power in {1, 2} (C17_magicg_constraints_is_source; (n^4-n^2)/2 exact: C17_magicg_uniq_rhs_is_source); only necessity of the uniqueness "
            "constraint is a theorem (C17_magic_uniqueness_necessary); it is not sufficient (C17_magic_uniqueness_not_sufficient_refuted)",
-           "multiplication_circuit: theorem for all n, m >= 2 on the hand-written wiring mirror (Model/MultCircuit.v), tied coefficient-wise "
-           "up to 6x6 and shape-locked; no translator emits the wiring itself",
+           "multiplication_circuit: theorem for all n, m >= 2 on the wiring mirror (Model/MultCircuit.v), tied coefficient-wise up to 6x6; the wiring is now GENERATED from the source "
+           "(translators/mult_wiring.py -> Gen/Gen_MultWiring.v, Model/MultWiring.v) and proved equal to the mirror as a list of gate instances for ALL n, m (C17_mult_wiring_is_source; per position C17_mult_gate_is_source, "
+           "C17_mult_gate_kind_is_source; naming C17_mult_naming_is_source), the documented relation is re-stated over it (C17_multiplication_circuit_generated); the 1-bit-argument finding stays open "
+           "(C17_multiplication_circuit_one_bit_refuted)",
            "satisfiability generators: only the draws of numpy's Generator (which k variables, which sign bits) are an oracle, replayed from the "
            "seed in the worker; how a draw becomes terms is translated from the source and proved",
            "random generators (uniform, randint, gnp/gnm_random_bqm, ran_r, power_r, doped) and decorators.graph_argument: per case MONITORED only (structure theorems for gnp / gnm / doped on the oracle model: see the frustrated_loop paragraph) - for "
